@@ -376,7 +376,8 @@ class HTMLParser(object):
             if not last and node.namespace != self.tree.defaultNamespace:
                 continue
 
-            if nodeName in newModes:
+            if nodeName in newModes and not (last and nodeName in ("td", "th")):
+                # (a td or th context element selects "in body", not "in cell")
                 new_phase = self.phases[newModes[nodeName]]
                 break
             elif last:
